@@ -56,12 +56,26 @@ class Lock:
         self.f.close()
 
 
+def _big_stack():
+    # long literal lists in generated case files need a deep native stack in coqc
+    import resource
+    try:
+        resource.setrlimit(resource.RLIMIT_STACK, (resource.RLIM_INFINITY, resource.RLIM_INFINITY))
+    except Exception:
+        try:
+            soft, hard = resource.getrlimit(resource.RLIMIT_STACK)
+            resource.setrlimit(resource.RLIMIT_STACK, (hard, hard))
+        except Exception:
+            pass
+
+
 def sh(cmd, timeout=None, cwd=None, env=None):
     e = dict(os.environ)
     if env:
         e.update(env)
     try:
-        p = subprocess.run(cmd, cwd=cwd, env=e, timeout=timeout, stdout=subprocess.PIPE, stderr=subprocess.STDOUT, text=True, errors='replace')
+        p = subprocess.run(cmd, cwd=cwd, env=e, timeout=timeout, stdout=subprocess.PIPE, stderr=subprocess.STDOUT, text=True, errors='replace',
+                           preexec_fn=_big_stack if cmd and cmd[0] == 'coqc' else None)
         return p.returncode, p.stdout
     except subprocess.TimeoutExpired as ex:
         out = ex.stdout or ''
@@ -657,7 +671,7 @@ def decide(prop, tier, seed, t0):
             for b in prop['bucket'](inputs[i], obs[i]):
                 hist[b] = hist.get(b, 0) + 1
     samples = []
-    for i in range(0, len(inputs), max(1, len(inputs) // 3)):
+    for i in range(0, len(verdicts), max(1, len(verdicts) // 3)):
         if verdicts[i] is not None:
             samples.append(dict(input=canon(inputs[i]), observed=canon(obs[i]), meaning=safe_describe(prop, inputs[i], obs[i])) if tree_size(inputs[i]) + tree_size(obs[i]) < 400 else dict(input_size=tree_size(inputs[i]), input_head=canon(inputs[i])[:300]))
         if len(samples) >= 3:
